@@ -671,6 +671,59 @@ def opcontract_variables(run, c):
     return set(v.params) if v is not None and not v.star else set()
 
 
+def r02_11(run):
+    """a gradient is un-permuted with the *inverse* permutation.  The VJP of x.transpose(P) is g.transpose(argsort(P)); code that permutes an operand
+    with P to compute on it and then hands back a gradient laid out in the permuted order must undo P the same way.  Re-using P itself is right
+    only for self-inverse permutations -- every 2-d case and many 3-d ones -- so tests on low-rank operands cannot see it."""
+    from ..cfg import CFG, ENTRY as _E, reaching_defs as _rd
+    n = 0
+    opmods = {c.module.name for c in run.project.operation_classes()}
+    for fi in run.project.all_functions():
+        if fi.module.name not in opmods or fi.name not in ("backward_var", "backward"):
+            continue
+        trans = []
+        for c in own_nodes(fi.node):
+            if isinstance(c, ast.Call) and ((isinstance(c.func, ast.Attribute) and c.func.attr == "transpose" and not (dotted(c.func) or "").startswith(("np.", "numpy.")))
+                                            or (dotted(c.func) or "") in ("np.transpose", "numpy.transpose")):
+                args = c.args[1:] if (dotted(c.func) or "") in ("np.transpose", "numpy.transpose") else c.args
+                if len(args) == 1:
+                    trans.append((c, args[0].value if isinstance(args[0], ast.Starred) else args[0]))
+        if not trans:
+            continue
+        cfg = CFG(fi.node)
+        returned = {r.value.id for r in own_nodes(fi.node) if isinstance(r, ast.Return) and isinstance(r.value, ast.Name)}
+        for c, perm in trans:
+            st = c
+            while st is not None and not isinstance(st, ast.stmt):
+                st = getattr(st, "_parent", None)
+            on_return = isinstance(st, ast.Return) or (isinstance(st, ast.Assign) and any(isinstance(t, ast.Name) and t.id in returned for t in st.targets))
+            if not on_return:
+                continue
+            n += 1
+
+            def inverse(e, at, depth=0):
+                if depth > 4:
+                    return False
+                if isinstance(e, ast.Call):
+                    leaf = (dotted(e.func) or "").split(".")[-1]
+                    if leaf == "argsort":
+                        return True
+                    if leaf in ("tuple", "list") and e.args:
+                        return inverse(e.args[0], at, depth + 1)
+                    return False
+                if isinstance(e, ast.Name):
+                    defs = _rd(cfg, e.id, at)
+                    return bool(defs) and _E not in defs and all(getattr(cfg.stmt[d], "value", None) is not None and inverse(cfg.stmt[d].value, d, depth + 1) for d in defs)
+                return False
+            at = cfg.node_for(st)
+            ok = at is not None and inverse(perm, at)
+            run.ob("R02.11", loc(fi, c), fi.short, f"the returned gradient is un-permuted with an inverse permutation (`{norm(perm)[:40]}`)", ok,
+                   "np.argsort(<permutation>) reaches the transpose on every path" if ok else
+                   f"`{norm(perm)[:40]}` is not the argsort of the permutation that was applied: the gradient's axes come back in the wrong order for every "
+                   f"permutation that is not its own inverse (rank >= 3)")
+    run.count("un-permutations on gradient return paths", n)
+
+
 def check(run):
     run.rule("R02.1", "derivative-table agreement in the term domain: for every closed-form op and operand k, the symbolic term of "
              "backward_var|index=k equals g * d(forward term)/dx_k at exact sample points of the kernel's domain (and simplifies to 0 where "
@@ -702,6 +755,8 @@ def check(run):
                                    "        self.mask = np.asarray(mask, dtype=bool)\n        return np.where(mask, a.data, 0)\n\n"
                                    "    def backward_var(self, grad, index, **kwargs):\n        return np.where(self.mask, grad, 0)")],
                 "kernel fed the raw parameter while its conversion is recorded")
+    run.rule("R02.11", "gradients are un-permuted with the inverse (argsort) of the permutation that was applied", floor=1)
+    run.do(r02_11)
     run.rule("R02.7", "log-domain family (logaddexp, logaddexp2, softmax, logsoftmax, sigmoid, softmax-crossentropy, _softmax, logsumexp, gru.sig): "
              "finite operands and gradients give finite, nan-free forward values and gradients (extended-sign abstract interpretation of exp over/underflow)", floor=14)
     run.do(r02_7)
